@@ -43,6 +43,16 @@ CHECKS = {
              'explicit / inherited / umask permissions. Bounded model checking.',
         note='Trusted: fakeos model, CrossHair/z3. Fault sites are the steps the statement lists; stat/lexists/unlink/fdopen are not fault sites.',
         ref='C05'),
+    'C07': dict(
+        technique='bounded symbolic execution (CrossHair/z3) of the real URL.navigate/normalize against an oracle written from RFC 3986 5.2.2/5.2.4/5.3; '
+                  'reference shape solver-chosen, one path segment as a symbolic string',
+        text='Every relative reference with optional leading slash, 0..3 segments from {., .., empty, two names}, optional query and fragment, '
+             'given as text or URL object, is resolved against 64 base shapes (path-less, 1-2 segments, empty segment, trailing slash, query, '
+             'fragment, userinfo+port) and compared with the RFC algorithm; no dot segments, never above root, base unmodified, normalize '
+             'idempotent, chained navigation == stepwise resolution, absolute references replace the base. A separate obligation keeps one '
+             'segment symbolic (string over {a, .}, length 1..2) so that dot-segment recognition is decided by the solver through the real parser.',
+        note='Trusted: CrossHair/z3, the RFC oracle. Outside: longer references, authority-only references, defined-but-empty query/fragment, non-ASCII segments.',
+        ref='C07'),
     'C09': dict(
         technique='bounded symbolic execution (CrossHair/z3): chunk_ranges on symbolic integers (offset unbounded); sequence helpers with '
                   'solver-decided lengths, element-class patterns, sizes, counts, maxsplit and key-equality patterns; oracles str.split/str.strip, slicing',
